@@ -29,7 +29,13 @@ for d in sorted(glob.glob(f"{V}/seeded/*")):
         by = m.get("miss_reason", "—")
     rows.append(f"| {sid} | {m['summary']} | {status} | {by} |")
 table = ["| change | what it does | result | reported by / why missed |", "|---|---|---|---|"] + rows
-txt = "\n".join(table) + f"\n\n{len(rows)} changes; {first} reported by the rules as they stood before the campaign, {det} after strengthening, {len(rows)-det} missed.\n"
+def rnd(sid): return 1 if sid.endswith(("-1", "-2")) else 2
+stats = {1: [0, 0, 0], 2: [0, 0, 0]}
+for d in sorted(glob.glob(f"{V}/seeded/*")):
+    sid = os.path.basename(d); m = json.load(open(d + "/meta.json"))
+    st = stats[rnd(sid)]; st[0] += 1; st[1] += bool(m.get("reported_first_run")); st[2] += bool(m.get("reported"))
+txt = "\n".join(table) + "\n\n" + "".join(
+    f"Round {k} (ids ending in {'-1/-2' if k == 1 else '-3/-4'}): {v[0]} changes; {v[1]} reported by the rules as they stood when the round was run, {v[2]} after strengthening, {v[0]-v[2]} missed.\n" for k, v in stats.items())
 p = f"{V}/DESIGN.md"
 s = open(p).read()
 if "SEEDED-TABLE-PLACEHOLDER" in s:
